@@ -4,7 +4,7 @@ From Coq Require Import List NArith ZArith Arith Lia Bool.
 From Coq.Strings Require Import Byte.
 From RecordUpdate Require Import RecordSet.
 From Model Require Import Bytes Utf8 Frame Parser FrameParser Response Conn.
-From Proofs Require Import BytesFacts ParserFacts FrameParserFacts FrameFacts ConnFacts ApiFacts TraceFacts ViolationFacts ShapeFacts DeliveryFacts StreamViolation.
+From Proofs Require Import BytesFacts Utf8Facts ParserFacts FrameParserFacts FrameFacts ConnFacts ApiFacts TraceFacts ViolationFacts ShapeFacts DeliveryFacts StreamViolation.
 Import ListNotations RecordSetNotations.
 Open Scope N_scope.
 
@@ -83,7 +83,9 @@ Section ParserViolation.
   Lemma parser_error_after_prefix (Q : perr -> Prop) fs lfs c open ms open' w :
     idle c open -> data_head open -> Forall plain fs -> forms_ok fs lfs ->
     ref_messages open fs = Some (ms, open') ->
-    (forall s u, at_boundary s (is_text_msg open') u -> exists e, fp_pull s w = Err e /\ Q e) ->
+    (forall s u, at_boundary s (is_text_msg open') u ->
+                 (if is_text_msg open' then uvalidate UAcc (payload_of open') = Some u else u = UAcc) ->
+                 exists e, fp_pull s w = Err e /\ Q e) ->
     let r := feedf cf app c (encode_all fs lfs ++ w) in
     snd r <> SOk /\
     msg_events (k_tr (fst r)) = rev (map ev_of ms) ++ msg_events (k_tr c) /\
@@ -96,7 +98,7 @@ Section ParserViolation.
     rewrite (feed_split cf app (length (encode_all fs lfs)) (encode_all fs lfs) w c (le_n _) (idle_ok c open Hidle)).
     unfold then_feed. rewrite E1. cbn [fst snd].
     destruct Hidle1 as (Hcl & Hcg & Hdf & Hsc & Hfr & Hrs & u & Hab & Hu).
-    destruct (Hw (k_ps c1) u Hab) as (e & Herr & Qe).
+    destruct (Hw (k_ps c1) u Hab Hu) as (e & Herr & Qe).
     rewrite feedf_unfold by (rewrite Hab; unfold fp_ok, st_ok; cbn; lia). unfold feed_body. rewrite Hcl, Herr.
     pose proof (raise_in_feed_not_ok cf app (c1 <| k_ps := fp_init |>) (perr_to_merr e)) as Hst.
     destruct (raise_in_feed_trace cf app (c1 <| k_ps := fp_init |>) (perr_to_merr e)) as (l & El & Fl).
@@ -123,7 +125,7 @@ Section ParserViolation.
     intros Hidle Hdh Hpl Hforms Href Hop Hlen.
     destruct (parser_error_after_prefix (fun e => e = PE_Protocol) fs lfs c open ms open' (hdr_bytes_m h L64 len ++ rest)
                 Hidle Hdh Hpl Hforms Href) as (A & B & e & -> & C).
-    - intros s u Hab. exists PE_Protocol. split; [|reflexivity].
+    - intros s u Hab _. exists PE_Protocol. split; [|reflexivity].
       destruct (pull_header_m s (is_text_msg open') u h L64 len rest Hab Hop) as (g' & _ & _ & _ & Hpull).
       { cbn. apply N.ltb_lt. lia. }
       rewrite Hpull. unfold after_len. replace (9223372036854775807 <? len) with true by (symmetry; apply N.ltb_lt; lia). reflexivity.
@@ -148,7 +150,7 @@ Section ParserViolation.
     destruct (parser_error_after_prefix (fun e => e = PE_Protocol \/ (e = PE_Utf8 /\ (h_op h = OP_TEXT \/ h_op h = OP_CONT)))
                 fs lfs c open ms open' (hdr_bytes_m h lf (blen p) ++ key ++ p ++ rest)
                 Hidle Hdh Hpl Hforms Href) as (A & B & e & Qe & C).
-    - intros s u Hab.
+    - intros s u Hab _.
       assert (Hlen : blen p < 9223372036854775808) by (destruct lf; cbn in Hf; apply N.ltb_lt in Hf; lia).
       destruct (pull_header_m s (is_text_msg open') u h lf (blen p) (key ++ p ++ rest) Hab Hop) as (g' & G1 & G2 & G3 & Hpull).
       { destruct lf; cbn in *; apply N.ltb_lt in Hf; apply N.ltb_lt; lia. }
@@ -239,3 +241,126 @@ Section CloseViolation.
               |rewrite perrors_nope by (eapply Forall_impl; [exact housekeeping_nope|exact Fl]); cbn [perrors]; rewrite P1; reflexivity]).
   Qed.
 End CloseViolation.
+
+(* ====================================================================================================== *)
+(* C05 at stream level: invalid UTF-8 in a text message *)
+Lemma take_app_ge len (q rest : bytes) : blen q <= len -> exists x, take len (q ++ rest) = q ++ x.
+Proof.
+  intros H. rewrite take_firstn'. rewrite firstn_app. unfold blen in H.
+  rewrite firstn_all2 by lia. eexists. reflexivity.
+Qed.
+
+Lemma pull_bad_text s t u h lf len q rest :
+  at_boundary s t u -> h_mask h = false -> h_op h < 16 -> form_ok lf len = true -> validate_err false h len = false ->
+  (h_op h =? OP_TEXT) || ((h_op h =? OP_CONT) && t) = true ->
+  q <> [] -> blen q <= len -> uvalidate u q = None ->
+  fp_pull s (hdr_bytes h lf len ++ q ++ rest) = Err PE_Utf8.
+Proof.
+  intros Hab Hm Hop Hf Hv Htx Hq Hlen Hbad.
+  destruct (pull_header s t u h lf len (q ++ rest) Hab Hm Hop Hf) as (g' & G1 & G2 & G3 & Hpull).
+  assert (Hl63 : len < 9223372036854775808) by (destruct lf; cbn in Hf; apply N.ltb_lt in Hf; lia).
+  rewrite Hpull. unfold after_len. replace (9223372036854775807 <? len) with false by (symmetry; apply N.ltb_ge; lia).
+  rewrite Hm. unfold after_mask. rewrite G3, Hv.
+  assert (Hpos : 0 < len) by (unfold blen in Hlen; destruct q; [congruence|cbn in Hlen; lia]).
+  replace (len =? 0) with false by (symmetry; apply N.eqb_neq; lia).
+  cbn [after_resume set_phase fp_is_text fp_u fp_compression fp_phase negb].
+  assert (Eu : ((h_op h =? OP_TEXT) || (h_op h =? OP_CONT) && (if h_op h =? OP_TEXT then true else fp_is_text g')) && true = true).
+  { rewrite andb_true_r, G1. destruct (h_op h =? OP_TEXT); [reflexivity|exact Htx]. }
+  rewrite Eu.
+  match goal with |- fp_pull ?st _ = _ => set (sp := st) end.
+  assert (Hok : fp_ok sp) by (unfold fp_ok, st_ok, sp; cbn; lia).
+  rewrite fp_pull_unfold by exact Hok. unfold pull_body.
+  destruct (q ++ rest) as [|x0 xs0] eqn:Eqr; [destruct q; [congruence|discriminate]|]. rewrite <- Eqr. clear Hpull. clear x0 xs0 Eqr.
+  cbn [paw prem pg sp].
+  destruct (take_app_ge len q rest Hlen) as (x & Ex). rewrite Ex.
+  unfold fp_validate, set_phase. cbn [fp_u]. rewrite G2, uvalidate_app, Hbad. reflexivity.
+Qed.
+
+Section TextViolation.
+  Variable cf : cfg.
+  Variable app : strategy.
+  Hypothesis app_benign : benign app.
+  Hypothesis no_ping_timeout : zpos (c_ping_timeout cf) = None.
+
+  (* fail-fast at stream level: after a conforming prefix, the header of a text frame -- a new TEXT frame, or a continuation
+     of the open text message -- followed by payload bytes q (the frame need not be complete: blen q <= len) such that NO
+     continuation of the message bytes received so far is well-formed UTF-8: the feed fails at once with one critical
+     ProtocolError; nothing of the message is delivered *)
+  Theorem text_failfast_after_prefix fs lfs c open ms open' h lf len q rest :
+    idle c open -> data_head open -> Forall plain fs -> forms_ok fs lfs ->
+    ref_messages open fs = Some (ms, open') ->
+    h_mask h = false -> form_ok lf len = true -> validate_err false h len = false ->
+    ((h_op h = OP_TEXT /\ open' = []) \/ (h_op h = OP_CONT /\ is_text_msg open' = true)) ->
+    q <> [] -> blen q <= len -> ~ viable (payload_of open' ++ q) ->
+    let r := feedf cf app c (encode_all fs lfs ++ hdr_bytes h lf len ++ q ++ rest) in
+    snd r <> SOk /\
+    msg_events (k_tr (fst r)) = rev (map ev_of ms) ++ msg_events (k_tr c) /\
+    perrors (k_tr (fst r)) = true :: perrors (k_tr c).
+  Proof.
+    intros Hidle Hdh Hpl Hforms Href Hm Hf Hv Hcase Hq Hlen Hnv.
+    destruct (parser_error_after_prefix cf app app_benign no_ping_timeout (fun e => e = PE_Utf8) fs lfs c open ms open'
+                (hdr_bytes h lf len ++ q ++ rest) Hidle Hdh Hpl Hforms Href) as (A & B & e & -> & C).
+    - intros s u Hab Hu. exists PE_Utf8. split; [|reflexivity].
+      apply validate_rejects_iff_not_viable in Hnv. rewrite uvalidate_app in Hnv.
+      assert (Hop : h_op h < 16) by (destruct Hcase as [[-> _]|[-> _]]; reflexivity).
+      apply (pull_bad_text s (is_text_msg open') u h lf len q rest Hab Hm Hop Hf Hv); auto.
+      + destruct Hcase as [[-> _]|[-> ->]]; reflexivity.
+      + destruct Hcase as [[_ ->]|[_ Ht]].
+        * cbn in Hu, Hnv. subst u. exact Hnv.
+        * rewrite Ht in Hu. rewrite Hu in Hnv. exact Hnv.
+    - cbv zeta. auto.
+  Qed.
+
+  (* a complete unfragmented TEXT frame whose payload is not well-formed UTF-8 (this includes a payload that ends inside a
+     multi-byte character, which the streaming check lets through): one critical ProtocolError, no Text event *)
+  Theorem invalid_text_after_prefix fs lfs c ms f lf rest :
+    idle c [] -> Forall plain fs -> forms_ok fs lfs ->
+    ref_messages [] fs = Some (ms, []) ->
+    plain f -> f_op f = OP_TEXT -> f_fin f = true -> form_ok lf (blen (f_payload f)) = true ->
+    ~ utf8_wf (f_payload f) ->
+    let r := feedf cf app c (encode_all fs lfs ++ enc_frame f lf ++ rest) in
+    snd r <> SOk /\
+    msg_events (k_tr (fst r)) = rev (map ev_of ms) ++ msg_events (k_tr c) /\
+    perrors (k_tr (fst r)) = true :: perrors (k_tr c).
+  Proof.
+    intros Hidle Hpl Hforms Href Hpf Hop Hfin Hform Hnwf.
+    assert (Hv : validate_err false (hdr_of f) (blen (f_payload f)) = false).
+    { unfold validate_err, hdr_of. cbn [h_r1 h_r2 h_r3 h_op h_fin]. rewrite Hop, Hfin. reflexivity. }
+    destruct (uvalidate UAcc (f_payload f)) as [u'|] eqn:Eu.
+    - (* the streaming check passes: the message is refused when it is assembled *)
+      cbv zeta.
+      destruct (deliver_frames cf app app_benign no_ping_timeout fs lfs c [] ms [] Hidle I Hpl Hforms Href)
+        as (c1 & E1 & Hidle1 & Hdh1 & M1 & _ & _).
+      pose proof (feed_ok_no_protocol_error cf app c _ c1 E1) as P1.
+      rewrite (feed_split cf app (length (encode_all fs lfs)) (encode_all fs lfs) (enc_frame f lf ++ rest) c (le_n _) (idle_ok c [] Hidle)).
+      unfold then_feed. rewrite E1. cbn [fst snd].
+      destruct Hidle1 as (Hcl & Hcg & Hdf & Hsc & Hfr & Hrs & u & Hab & Hu). cbn in Hu. subst u.
+      destruct (pull_one_frame (k_ps c1) false UAcc f lf rest u' Hab Hpf Hform Hv (fun _ => Eu)) as (s' & Hpull & _).
+      rewrite feedf_unfold by (rewrite Hab; unfold fp_ok, st_ok; cbn; lia). unfold feed_body. rewrite Hcl, Hpull.
+      assert (Hitem : on_item cf app (c1 <| k_ps := s' |>) (IFrame f) =
+                      (let '(c2, st) := raise_in_feed cf app (c1 <| k_ps := s' |>) MCritical in (c2, st, FBreak))).
+      { unfold on_item, stream_frame. rewrite Hop, Hfin. change (is_control OP_TEXT) with false. change (OP_TEXT =? OP_CONT) with false.
+        change (k_frames (c1 <| k_ps := s' |>)) with (k_frames c1). rewrite Hfr. cbv iota.
+        rewrite (build_plain (c1 <| k_ps := s' |>) [f] f [] eq_refl) by (constructor; [destruct Hpf as (A & _); exact A|constructor]).
+        cbv zeta. rewrite payload_of_one, Hop. change (OP_TEXT =? OP_BINARY) with false. change (OP_TEXT =? OP_TEXT) with true. cbv iota.
+        destruct (utf8_validb (f_payload f)) eqn:Evb; [apply validb_iff_wf in Evb; contradiction|reflexivity]. }
+      rewrite Hitem.
+      pose proof (raise_in_feed_not_ok cf app (c1 <| k_ps := s' |>) MCritical) as Hst.
+      destruct (raise_in_feed_trace cf app (c1 <| k_ps := s' |>) MCritical) as (l & El & Fl).
+      destruct (raise_in_feed cf app (c1 <| k_ps := s' |>) MCritical) as [c3 st]. cbn [fst snd] in *.
+      change (k_tr (c1 <| k_ps := s' |>)) with (k_tr c1) in El.
+      destruct st; try congruence; cbn [fst snd]; (split; [discriminate|]); rewrite El;
+        (split; [rewrite housekeeping_no_msg by exact Fl; cbn [msg_events is_msg_ev]; exact M1
+                |rewrite perrors_nope by (eapply Forall_impl; [exact housekeeping_nope|exact Fl]); cbn [perrors]; rewrite P1; reflexivity]).
+    - (* the streaming check fails: the parser refuses the payload *)
+      assert (Hne : f_payload f <> []) by (intros E; rewrite E in Eu; discriminate).
+      pose proof Hpf as (P1 & P2 & P3 & P4 & P5 & P6).
+      assert (Henc : enc_frame f lf ++ rest = hdr_bytes (hdr_of f) lf (blen (f_payload f)) ++ f_payload f ++ rest).
+      { unfold enc_frame, hdr_bytes, hdr_of. rewrite P1, P2, P3, P4. cbn [h_fin h_r1 h_r2 h_r3 h_op]. cbn [List.app]. rewrite <- app_assoc. reflexivity. }
+      rewrite Henc.
+      assert (Hnv : ~ viable (payload_of [] ++ f_payload f)).
+      { cbn [payload_of map concat List.app]. apply validate_rejects_iff_not_viable. exact Eu. }
+      exact (text_failfast_after_prefix fs lfs c [] ms [] (hdr_of f) lf (blen (f_payload f)) (f_payload f) rest
+               Hidle I Hpl Hforms Href eq_refl Hform Hv (or_introl (conj Hop eq_refl)) Hne (N.le_refl _) Hnv).
+  Qed.
+End TextViolation.
